@@ -138,6 +138,17 @@ CHECKS['C15'] = dict(
     technique='Coq lexical state machine + simulation proofs; generated decision rules; differential oracle against CPython AST',
     design='4/C15')
 
+CHECKS['C06'] = dict(
+    text='The generic gen/kill soundness (fixpoint_sound_fwd / fixpoint_sound_bwd: any solution of the equations is sound along every chain) is proved and composed with C05 so that it holds along every execution trace of the skeleton semantics (all trip counts incl. zero); the transfer equations are translated from the analysis source on every run with their gen/kill shape re-proved; per generated program Coq checks that the solution the real analysis reports is the exact fixed point on the implementation graph and that the annotations follow from it. Oracle: CPython variable events (sys.monitoring) give the real last writer / use-before-overwrite at every statement instance. The event-level theorem is guarded by the for-header known finding; closure-crossing and except-as parts are partial.',
+    note=NOTE_BASE + 'Trusts the exporter/oracle in tools/export/flow.py, the C05 graph tie, CPython 3.12 monitoring events and the statement-per-line generator; assumes no implicit exceptions; the worklist itself is not modelled (the per-run fixed-point check carries it).',
+    technique='Coq gen/kill theory + generated transfer + reflective per-program fixed-point checks + CPython last-writer oracle',
+    design='4/C06')
+CHECKS['C07'] = dict(
+    text='The generic gen/kill soundness (fixpoint_sound_fwd / fixpoint_sound_bwd: any solution of the equations is sound along every chain) is proved and composed with C05 so that it holds along every execution trace of the skeleton semantics (all trip counts incl. zero); the transfer equations are translated from the analysis source on every run with their gen/kill shape re-proved; per generated program Coq checks that the solution the real analysis reports is the exact fixed point on the implementation graph and that the annotations follow from it. Oracle: CPython variable events (sys.monitoring) give the real last writer / use-before-overwrite at every statement instance. The event-level theorem is guarded by the for-header known finding; closure-crossing and except-as parts are partial.',
+    note=NOTE_BASE + 'Trusts the exporter/oracle in tools/export/flow.py, the C05 graph tie, CPython 3.12 monitoring events and the statement-per-line generator; assumes no implicit exceptions; the worklist itself is not modelled (the per-run fixed-point check carries it).',
+    technique='Coq gen/kill theory + generated transfer + reflective per-program fixed-point checks + CPython use-before-overwrite oracle',
+    design='4/C07')
+
 NOT_YET = {}
 
 
